@@ -1,6 +1,6 @@
 (* Correspondence checker for the log core (C01-C06, C15-C17): replays a history on the model and
    compares, after every operation, what the implementation reported for the touched replica. *)
-From IpfsLog Require Import Model.System Model.Check19.
+From IpfsLog Require Import Model.System Model.Check19 Model.WfDef.
 From Coq Require Import Sorting.Mergesort Orders.
 Open Scope Z_scope.
 
@@ -85,3 +85,10 @@ Definition check_history (h : history) : bool :=
 Definition mismatches_hist := mismatches check_history 0.
 (* for diagnosis: the failing op index of each history *)
 Definition first_bad (h : history) : option nat := check_ops 0 empty_sys h.
+
+(* do the histories the harness ran satisfy the hypotheses of the theorems?  (only histories made of
+   appends and UNBOUNDED joins are in the scope of [wf]) *)
+Definition unbounded_history (h : history) : bool :=
+  forallb (fun oo => match fst oo with OJoin _ _ size => size <? 0 | _ => true end) h.
+Definition check_wf (h : history) : bool := negb (unbounded_history h) || wfb (map fst h).
+Definition mismatches_wf := mismatches check_wf 0.
